@@ -2,6 +2,7 @@ import VncModel.Scale.Lemmas
 import VncModel.Scale.StateLemmas
 import VncModel.Scale.Converge
 import VncModel.Scale.Ieee
+import VncModel.Leaf.EquivScale
 /-!
 # C17 — server-side scaling delivers consistent geometry and correctly filtered pixels
 
@@ -38,6 +39,17 @@ What the theorems say for the property
 * `scaled_copy_tracks`, `scaled_copy_full_refresh`
                              convergence of the scaled copy: after a modification inside a rectangle and
                              the refresh of that rectangle the copy equals the reference image again.
+* `scaled_views_converge`    the same for EVERY history of joins, factor changes, leaves and
+                             modifications: every scaled screen with at least one user equals the
+                             reference image ("shared views stay correct", "converges after every
+                             modification"); unconditional for screen sizes < 2¹⁶.
+* `corrRaw_sound`, `corrected_rect_code`
+                             the double arithmetic of rfbScaledCorrection (software-float model) stays
+                             within `CorrRel` for all 16-bit operands, hence inside-ness and coverage
+                             hold for the function the code computes.
+* `request_rect_inside_screen`
+                             a client's update request (scaled coordinates, any 16-bit values) is either
+                             ignored or clipped to a rectangle inside the screen.
 * `pointer_mapped_back`      a pointer position of the scaled client is mapped to the top-left source
                              pixel of the block shown at that position (inside the screen).
 * `refcount_conservation`    for EVERY history of join / change factor (both variants, any n) / leave /
@@ -465,3 +477,23 @@ example :
 example : scaleN 1 49 98 = 2 := by decide
 
 end VncModel.Props.C17
+
+/-! ## T1: the regenerated C leaf functions are the model's functions
+
+The definitions `VncModel.Gen.Leaf.*` are translated from /repo's current C source by
+`tools/c2lean.py` on every run; these theorems are the proof obligations that break when the C
+functions change (see docs/T1.md). -/
+namespace VncModel.Props.C17.T1
+
+/-- `ScaleX` as compiled now = the model's `scaleN` -/
+theorem code_ScaleX_eq_model (x fw tw : Nat) (hq : x * tw / fw < 2147483648) :
+    VncModel.Gen.Leaf.ScaleX x false false false tw fw = (VncModel.Scale.scaleN x fw tw : Nat) :=
+  VncModel.Leaf.ScaleX_eq x fw tw hq
+/-- `ScaleY` as compiled now = the model's `scaleN` -/
+theorem code_ScaleY_eq_model (y fh th : Nat) (hq : y * th / fh < 2147483648) :
+    VncModel.Gen.Leaf.ScaleY y false false false th fh = (VncModel.Scale.scaleN y fh th : Nat) :=
+  VncModel.Leaf.ScaleY_eq y fh th hq
+/-- `pad4` as compiled now = the model's `pad4` -/
+theorem code_pad4_eq_model (v : Nat) : VncModel.Gen.Leaf.pad4 v = (VncModel.Scale.pad4 v : Nat) :=
+  VncModel.Leaf.pad4_eq v
+end VncModel.Props.C17.T1
